@@ -304,8 +304,48 @@ def gen_io_sites():
     return xr, sites
 
 
+# ---------------------------------------------------------------------------------------------
+# vector.py proxies: attribute name -> wrapped module function (C19)
+
+
+def proxy_table():
+    tree = ast.parse(src("dataiter/vector.py"))
+    rows = []
+    for c in tree.body:
+        if isinstance(c, ast.ClassDef) and c.name in ("DtProxy", "ReProxy", "StrProxy"):
+            init = [f for f in c.body if isinstance(f, ast.FunctionDef) and f.name == "__init__"][0]
+            wrap_src = ""
+            for n in init.body:
+                if isinstance(n, ast.Assign) and ast.unparse(n.targets[0]) == "wrap":
+                    wrap_src = ast.unparse(n.value)
+            how = ("partial-first" if "functools.partial(f, vector)" in wrap_src else
+                   "partial-string-kw" if "functools.partial(f, string=vector)" in wrap_src else
+                   "np.strings-partial-first" if "np.strings" in wrap_src and "vector" in wrap_src else "other:" + wrap_src)
+            for n in init.body:
+                if isinstance(n, ast.Assign) and isinstance(n.value, ast.Call) and ast.unparse(n.value.func) == "wrap":
+                    attr = ast.unparse(n.targets[0]).replace("self.", "")
+                    arg = ast.unparse(n.value.args[0])
+                    rows.append((c.name, attr, arg, how))
+    return rows
+
+
+def gen_proxy_table():
+    rows = proxy_table()
+    out = ["/- GENERATED by harness/extract_ast.py from dataiter/vector.py (DtProxy, ReProxy, StrProxy) — do not edit. -/",
+           "namespace DI.Gen", "",
+           "/-- (proxy class, attribute, wrapped function expression, how the vector is bound) -/",
+           "def proxyTable : List (String × String × String × String) := ["]
+    out.append(",\n".join(f"  ({lean_str(a)}, {lean_str(b)}, {lean_str(c)}, {lean_str(d)})" for a, b, c, d in rows))
+    out.append("]")
+    out.append("")
+    out.append("end DI.Gen")
+    write_if_changed(os.path.join(GEN, "ProxyTable.lean"), "\n".join(out) + "\n")
+    return rows
+
+
 def main():
     os.makedirs(GEN, exist_ok=True)
+    gen_proxy_table()
     gen_io_sites()
     gen_helper_table()
     gen_io_aliases()
